@@ -442,6 +442,7 @@ fn run_printer(prop: &str, tier: &str, seed: u64, outdir: &str, only: Option<(&'
                 let mut w = std::io::BufWriter::new(f);
                 for c in part {
                     *current[ti].lock().unwrap() = (Some(CaseRef { gen: c.gen, idx: c.idx }), std::time::Instant::now());
+                    set_cur_case(c.gen, c.idx);
                     let Some((src, mut cfg, feat)) = make_case(c, fx) else { continue };
                     if matches!(prop, "C06" | "C07" | "C08" | "C09" | "C12") {
                         // import reordering legitimately moves words; it is covered by C01/C03/C10/C19
@@ -578,9 +579,38 @@ fn parse_cfg(a: &[String]) -> Cfg {
     }
 }
 
+// ---------------------------------------------------------------------------------------------
+// process aborts (allocation failure, `abort()`): `catch_unwind` does not see them.  The case a
+// worker is on is kept in a thread-local; `abort()` raises SIGABRT on the calling thread, so the
+// handler knows the input.  It records "<gen> <idx>" in $VH_ABORT_FILE and ends the process with
+// status 4; `vh abortcase` then turns the record into an oracle failure with the input.
+// ---------------------------------------------------------------------------------------------
+thread_local! {
+    pub static CUR_CASE: std::cell::Cell<(&'static str, u64)> = const { std::cell::Cell::new(("", 0)) };
+}
+pub fn set_cur_case(gen: &'static str, idx: u64) {
+    CUR_CASE.with(|c| c.set((gen, idx)));
+}
+extern "C" {
+    fn signal(signum: i32, handler: usize) -> usize;
+    fn _exit(code: i32) -> !;
+}
+extern "C" fn on_abort(_sig: i32) {
+    let (gen, idx) = CUR_CASE.with(|c| c.get());
+    if let Ok(path) = std::env::var("VH_ABORT_FILE") {
+        let _ = std::fs::write(path, format!("{} {}\n", gen, idx));
+    }
+    unsafe { _exit(4) }
+}
+
 fn main() {
     let args: Vec<String> = std::env::args().collect();
     std::panic::set_hook(Box::new(|_| {}));
+    if std::env::var("VH_ABORT_FILE").is_ok() {
+        unsafe {
+            signal(6, on_abort as usize);
+        }
+    }
     let cmd = args.get(1).map(|s| s.as_str()).unwrap_or("");
     match cmd {
         // vh printer <prop> <tier> <seed> <outdir>
@@ -686,6 +716,23 @@ fn main() {
                     print!("{}", s);
                 }
                 None => eprintln!("no such case"),
+            }
+        }
+        // vh abortcase <prop> <gen> <idx> <outdir>: the input on which the process aborted, as an oracle failure
+        "abortcase" => {
+            let fx = Fixtures::load(FIXTURE_ROOT, true);
+            let gen: &'static str = match args[3].as_str() { "fix" => "fix", "gram" => "gram", "exh" => "exh", "imp" => "imp", "nl" => "nl", "mut" => "mut", "corp" => "corp", _ => "mal" };
+            let idx: u64 = args[4].parse().unwrap_or(0);
+            if let Some((src, cfg, _)) = make_case(&CaseRef { gen, idx }, &fx) {
+                let j = fail_json_pub(&args[2], gen, idx, &src, cfg, "abort", "the process aborted while formatting this input (allocation failure or abort(); not a panic that could be caught)", "");
+                let _ = std::fs::write(format!("{}/oracle.jsonl", &args[5]), format!("{}\n", j));
+                let mut stw = Stats::default();
+                stw.evaluated = 1;
+                stw.failures = 1;
+                stw.distinct.insert(idx);
+                stw.nontrivial.insert(idx);
+                stw.samples.push(format!("{}:{} (run ended by a process abort)", gen, idx));
+                let _ = std::fs::write(format!("{}/stats.json", &args[5]), stw.to_json());
             }
         }
         "fmtlist" => other::fmtlist(&args[2]),
